@@ -570,6 +570,7 @@ impl Check for C04 {
             }
             out.count(&format!("A:{}", d.kind.split('#').next().unwrap_or("")), 1);
             out.distinct.push(entropy::fnv(0, serde_json::to_string(&(&d.spec.faults, &d.spec.taps, cfg.base.seed)).unwrap().as_bytes()));
+            count_honest_errs(&mut out, &d.spec, &run);
             let (va, inc) = oracle_a(&d, &run);
             out.count("A:inconclusive_victims", inc);
             out.violations.extend(va);
